@@ -60,6 +60,8 @@ def make_case(rng, kind):
     case = gi.random_case(rng, n_core_rings=1, n_types=1, gap_model=rng.choice(['none', 'flow']), length=0.1, flow_range=(1.0, 5.0),
                           type_kw=dict(n_ring=rng.choice([2, 3]), n_duct=1))
     t = case['types']['t0']
+    if rng.random() < 0.5:
+        gi.random_setup_options(rng, case)
     if kind == "fuel":
         t['FuelModel'] = dict(FUEL)
     elif kind == "pin":
